@@ -34,6 +34,8 @@ func decodeLatency(w *World, m *hagallpb.SignedLatencyResponse) M {
 	rec["ids"] = ids
 	rec["n"] = int(d.IterationCount)
 	rec["min"], rec["max"], rec["mean"], rec["p95"], rec["last"] = f2i(d.Min), f2i(d.Max), f2i(d.Mean), f2i(d.P95), f2i(d.Last)
+	// the self-consistency clause on the values as they are signed (the integer view above truncates them)
+	rec["exact_ok"] = d.Min <= d.Last && d.Last <= d.Max && d.Min <= d.P95 && d.P95 <= d.Max && d.Min <= d.Mean && d.Mean <= d.Max
 	rec["uuid"] = w.uuidIndex(d.SessionId)
 	rec["client"] = d.ClientId
 	rec["wallet"] = d.WalletAddress
